@@ -255,6 +255,7 @@ def run(check, tier, seed):
         # 6. classify
         violations = []        # (case, failure)
         known_seen = {}
+        n_known = 0
         for idx, f in oracle_fail:
             case = all_cases[idx][1]
             fid = None
@@ -264,6 +265,7 @@ def run(check, tier, seed):
                 fid = None
             if fid is not None and fid in known_ids:
                 known_seen.setdefault(fid, (case, f))
+                n_known += 1
             else:
                 violations.append((case, f, all_cases[idx][0]))
 
@@ -363,7 +365,7 @@ def run(check, tier, seed):
         print("%s tier=%s seed=%s: %d theorems (%d audited ok), %d cases (%d corpus), %d model comparisons, "
               "%d disagreements, %d oracle failures (%d known), %.1fs"
               % (pid, tier, seed, aud["obligations"], aud["discharged"], len(all_cases), n_corpus, len(reqs),
-                 len(disagreements), len(oracle_fail), len(oracle_fail) - len(violations), time.time() - t0))
+                 len(disagreements), len(oracle_fail), n_known, time.time() - t0))
         return exit_code
     finally:
         check.teardown()
